@@ -72,6 +72,8 @@ def check_cfg(r, cfg, n, only=None):
             r.v(sig_of(cfg, s, 'whole-sequence-verdict'), 'cfg', dict(case0, strings=[s]), exp, got if st == 'ok' else repr(got))
             got = exp
         verdict[s] = bool(got)
+        if exp and len(s) >= k:
+            _LAST['case'] = {'cfg': case0['cfg'], 'string': s, 'only_last': False, 'verdict': bool(got), 'reference': exp}
         r.out.add((exp, len(s) < k))
     nt = 0
     for s in strings:
@@ -116,6 +118,7 @@ def check_cfg(r, cfg, n, only=None):
                             got if st == 'ok' else repr(got))
 
 
+_LAST = {}
 AWKWARD = ['0', '0.07', '0.125', '0.14', '0.25', '0.28', '0.29', '0.3', '0.333', '0.335', '0.35', '0.375', '0.4', '0.45', '0.5', '0.55',
            '0.56', '0.57', '0.58', '0.6', '0.625', '0.667', '0.7', '0.71', '0.75', '0.875', '0.9', '1']
 
@@ -307,7 +310,7 @@ def _w(chunk):
     n, cfgs = chunk
     for cfg in cfgs:
         check_cfg(r, cfg, n)
-    r.sample({'cfg': list(cfgs[-1]), 'strings': 'all ACGT strings of length 0..%d + foreign-character strings' % n}, 1)
+    r.sample(_LAST.get('case') or {'cfg': list(cfgs[-1])}, 1)
     return r
 
 
